@@ -19,6 +19,10 @@
 //  3. first-byte sweep: every first byte 0x00–0xFF (and none) followed by a correctly signed
 //     plaintext login (raw or as a yamux session, on tcp / websocket / kcp) against a server that
 //     forces TLS must never produce a LoginResp nor a session.
+//
+// Debug switches (not part of any tier): C05_TIMING=1 prints per-case durations and failed legs to stderr;
+// C05_PROTO=<transport> forces the lattice transport; C05_ONLY_LATTICE / C05_ONLY_SWEEP run one monitor only;
+// C05_STRESS_CANCEL=<n> runs the frpc cancel-after-login witness (see stress.go).
 package main
 
 import (
@@ -75,7 +79,9 @@ func main() {
 	run.Parallel(total, 8, func(c *h.Case) {
 		if os.Getenv("C05_TIMING") != "" {
 			t0 := time.Now()
-			defer func() { fmt.Fprintf(os.Stderr, "case %d %v %.2fs %v\n", c.Idx, c.Data["kind"], time.Since(t0).Seconds(), c.Data["cfg"]) }()
+			defer func() {
+				fmt.Fprintf(os.Stderr, "case %d %v %.2fs %v\n", c.Idx, c.Data["kind"], time.Since(t0).Seconds(), c.Data["cfg"])
+			}()
 		}
 		switch {
 		case c.Idx < nLattice:
